@@ -188,8 +188,8 @@ def finish(prop, tier, seed, result, evid_path):
         print('KNOWN-FINDING: property=%s %s' % (prop, hit.get('what', hit.get('obligation'))))
     if violations:
         os.makedirs(os.path.join(ROOT, 'replays'), exist_ok=True)
+        real = []
         for i, f in enumerate(violations):
-            rp = os.path.join(ROOT, 'replays', '%s-%d.json' % (prop, i))
             found = None
             try:
                 if f.get('kani_harness'):
@@ -200,15 +200,34 @@ def finish(prop, tier, seed, result, evid_path):
                     import replay
                     found = replay.search(prop, f, seed, tier)
             except Exception as e:      # the search is best-effort; the violation is reported regardless
-                found = {'error': 'replay search failed: %r' % (e,)}
+                found = {'input': None, 'error': 'replay search failed: %r' % (e,)}
+            tags = set((found or {}).get('tags', []))
+            if found and found.get('input') is None and found.get('agree_points') and (tags & {'identity', 'reference-formula'}):
+                # Schwartz-Zippel style triage (DESIGN 2.5): the real function still equals the spec function on every sampled
+                # point, so the failed proof of this hinted / reference-formula obligation is brittleness, not a violation
+                result['infra'].append('proof of %s failed but the real code agrees with its spec function on %d random points: undecided (proof brittleness), not a violation' % (
+                    f.get('obligation'), found['agree_points']))
+                continue
+            real.append((f, found))
+        for i, (f, found) in enumerate(real):
+            rp = os.path.join(ROOT, 'replays', '%s-%d.json' % (prop, i))
             doc = {'property': prop, 'obligation': f.get('obligation'), 'origin': f.get('origin'),
                    'verifier': 'verus' if 'pass' in f else 'kani', 'unit': f.get('unit'), 'model': f.get('model'),
                    'message': f.get('message'), 'verifier_output': f.get('rendered'), 'replay': found}
             json.dump(doc, open(rp, 'w'), indent=1)
             tail = '' if (found and found.get('input') is not None) else ' no-failing-input-found'
             print('failed obligation: %s (%s): %s' % (f.get('obligation'), f.get('origin'), f.get('message')))
+            if found and found.get('input') is not None and 'values' in found:
+                print('  failing input on the real code: %s  component %s: got %s, spec %s' % (found['input'], found.get('component'), found.get('got'), found.get('want')))
             print('VIOLATION property=%s replay=%s%s' % (prop, rp, tail))
-        code = 1
+        violations = [f for f, _ in real]
+        evidence['violations'] = len(violations)
+        if violations:
+            code = 1
+        elif result['infra']:
+            for m in result['infra'][:10]:
+                print('UNDECIDED property=%s: %s' % (prop, m.strip()[:1200]))
+            return 2
     json.dump(evidence, open(evid_path, 'w'), indent=1)
     if code == 0:
         print('OK property=%s tier=%s obligations=%d discharged=%d functions_under_contract=%d wall=%.1fs' % (
